@@ -2,6 +2,13 @@
 C14 — "List-mode histogramming and list-mode likelihood agree with the event list".
 Property theorems over the model of `Model.lean` (`processData` = `LmToProjData::process_data`).  All statements are
 for every record list, every frame list, every template and every batch size (no bound).
+
+Scope of the model functions since the extension of the harness (families 3 and 4): the bin of an event is data, so the
+theorems about `processData` are statements about every run that the driver replays — runs fed by the synthetic
+`CListEventCylindricalScannerWithDiscreteDetectors` events, by events that only know their LOR (`ListEvent::get_bin`), by
+events of BlocksOnCylindrical scanners, and by REAL SAFIR and ECAT8 32-bit list-mode files read through the library's readers
+(several passes = `save_get_position`/`set_get_position` on the file); with `processDataW`/`preStream` also runs with pre- or
+post-normalisation (section "normalisation" below).
 -/
 import StirVerif.C14.ProofsWeighted
 
